@@ -189,19 +189,26 @@ func WithTimeoutCause(parent Context, d time.Duration, cause error) (Context, Ca
 }
 
 // AfterFunc runs f in its own goroutine once the context is done; returns a stop function.
+// The helper thread ends when the function has run or when stop is called (no thread lingers).
 func AfterFunc(c Context, f func()) (stop func() bool) {
 	stopped := false
 	started := false
+	stopCh := vmc.NewChan[struct{}](0)
 	vmc.Go(func() {
-		c.Done().Recv()
-		if !stopped {
-			started = true
-			f()
+		switch vmc.Select(false, c.Done().RecvCase(), stopCh.RecvCase()) {
+		case 0:
+			if !stopped {
+				started = true
+				f()
+			}
 		}
 	})
 	return func() bool {
 		was := !stopped && !started
-		stopped = true
+		if !stopped {
+			stopped = true
+			vmc.CloseQuiet(stopCh)
+		}
 		return was
 	}
 }
